@@ -1,3 +1,4 @@
 pub mod cup;
 pub mod time;
 pub mod version;
+pub mod wire_req;
